@@ -1258,6 +1258,22 @@ fn source_sets(r: &mut Rng, n: usize) -> Vec<Vec<String>> {
             }
         }
     }
+    // member names of every awkward category: non-ASCII letters (legal identifiers), keywords and reserved
+    // words, leading digits, underscores only, names that differ only in case or separators, very long
+    // names, names equal to the types and crates the generated code itself mentions
+    let long = "x".repeat(300);
+    let names = [
+        "caf\u{e9}", "gr\u{f6}\u{df}e", "\u{540d}\u{524d}", "na\u{ef}ve key", "smile\u{1f600}", "type", "fn", "self", "Self", "crate", "super",
+        "async", "dyn", "try", "union", "1st", "9", "_", "__", "a_b", "aB", "A_B", "Vec", "Option", "String", "serde", "Struct1",
+        "Deserialize", "Root", "std", long.as_str(),
+    ];
+    for (i, nm) in names.iter().enumerate() {
+        let q = serde_json::to_string(nm).unwrap();
+        out.push(vec![format!("{{{q}:1}}")]);
+        out.push(vec![format!("{{{q}:{{{q}:[1,2]}},\"plain\":true}}"), format!("{{{q}:null,\"plain\":false}}")]);
+        let q2 = serde_json::to_string(names[(i + 1) % names.len()]).unwrap();
+        out.push(vec![format!("[{{{q}:1,{q2}:\"s\"}},{{{q}:2}}]")]);
+    }
     for i in 0..n {
         let h = if i % 2 == 0 { clean_history(r) } else { rand_history(r, &keys) };
         let style = if i % 7 == 0 { 2 } else { 0 };
